@@ -899,3 +899,39 @@ func virtualReturns(fn *ssa.Function, idx int) []vret {
 	}
 	return out
 }
+
+// thunkTarget: fn is an anonymous function that does nothing but call one static callee with values it captured
+// (`func() { b.run() }`, `func() { newBatch.trigger() }`) — the closure form of a method value. Returns that callee.
+func thunkTarget(fn *ssa.Function) *ssa.Function {
+	if fn == nil || fn.Parent() == nil || len(fn.Params) != 0 {
+		return nil
+	}
+	var target *ssa.Function
+	calls := 0
+	ok := true
+	eachInstr(fn, func(in ssa.Instruction) {
+		switch x := in.(type) {
+		case *ssa.Call:
+			calls++
+			target = calleeOf(x).Static
+			for _, a := range x.Call.Args {
+				switch av := a.(type) {
+				case *ssa.FreeVar:
+				case *ssa.UnOp:
+					if _, isFV := av.X.(*ssa.FreeVar); !isFV || av.Op != token.MUL {
+						ok = false
+					}
+				default:
+					ok = false
+				}
+			}
+		case *ssa.UnOp, *ssa.Return, *ssa.DebugRef, *ssa.Jump, *ssa.RunDefers:
+		default:
+			ok = false
+		}
+	})
+	if !ok || calls != 1 {
+		return nil
+	}
+	return target
+}
